@@ -24,10 +24,13 @@ func init() {
 	for _, c := range [][]int64{{0, 0}, {0, 1}, {1, 0}, {1, 1}} {
 		quick = append(quick, &Job{Pkg: "", Func: "ZZ_C12_Idle", Args: c, Bounds: "idle handler timer callbacks (<=2 expirations) against one traffic event and the inactive event", Race: true, ConcreteClock: true, MaxTimerFires: 2})
 	}
+	for _, c := range [][]int64{{0, 1, 1}, {0, 0, 10}, {0, 2, 6}, {0, 1, 0}, {0, 10, 2}, {1, 1, 0}, {0, 8, 1}} {
+		quick = append(quick, &Job{Pkg: "", Func: "ZZ_C12_Buffered", Args: c, Bounds: "two concurrent writers (Write1 / Writev / Write / CtxWrite1 / CtxWritev / ReadFrom) on a channel over the repository's real write-buffered transport (bufio.Writer is monitored state)", Race: true, ConcreteClock: true})
+	}
 	quick = append(quick, &Job{Pkg: "", Func: "ZZ_C12_Pool", Bounds: "two goroutines Get/Put on the shared byte pool", Race: true})
 	Specs["C12"] = &Spec{
 		Jobs: jobsBy(quick, thorough), Labels: labelFilter("c12-"),
-		MustReach: []string{"c12-channel-done", "c12-bootstrap-done", "c12-idle-done", "c12-pool-done"},
+		MustReach: []string{"c12-channel-done", "c12-bootstrap-done", "c12-idle-done", "c12-pool-done", "c12-buffered-done"},
 		Bounds: map[string]string{
 			"quick":    "10 pairs of channel operations on synchronous / queue-2 channels; bootstrap scenarios {Shutdown vs starting listener, +Listener.Close, +Connect, +inbound connection}; idle handlers with 2 timer expirations; pool Get/Put",
 			"thorough": "the same pairs on the other channel kind, three triples, bootstrap scenarios with a second listener and combinations",
